@@ -5,7 +5,7 @@ cd /verif
 s="$1"; d=seeded/$s
 WT=${DEVWT:-/tmp/wt/dev}
 [ -d $WT ] || git -C /repo worktree add -q --detach $WT HEAD
-prop=$(/venv/bin/python -c "import json;print(json.load(open('$d/meta.json'))['property'])")
+prop=$(/venv/bin/python -c "import json;m=json.load(open('$d/meta.json'));print(m.get('run_check', m['property']))")
 c=${2:-$prop}
 git -C $WT checkout -q -- . && git -C $WT apply $PWD/$d/patch.diff || { echo "patch does not apply"; exit 2; }
 t0=$(date +%s)
